@@ -821,3 +821,63 @@ def rule_transfer_bound_has_position(ctx):
                                          "may run past the end of the element" % r[:70])
     ctx.floor("POSNTERM", 2, n, "(comparisons of a transfer length with the element length in Hread/Hwrite)")
     return n
+
+
+def rule_seek_product_bounded(ctx):
+    """SEEKPROD (C20): an element offset is a 32-bit quantity.  Where a public routine turns a caller-supplied integer into the byte
+    offset it seeks to by multiplying it (record number x record size), the product wraps for a large enough argument and the
+    seek lands on an unrelated, *valid* position — the call succeeds at the wrong place instead of failing.  The argument must
+    therefore be compared against an upper bound before the seek (or the product has the non-growing form (p / C) * C)."""
+    prog = ctx.prog
+    n = 0
+    for f in prog.lib_funcs():
+        if not prog.is_public(f.name):
+            continue
+        params = {q[0] for q in f.params if "*" not in (q[1] if len(q) > 1 else "") and "[" not in (q[1] if len(q) > 1 else "")}
+        if not params:
+            continue
+        defs = {}
+        for _b, _i, _s, x in f.nodes(True):
+            if x[0] == "asg" and x[1] == "=" and kind(strip(x[2])) == "var":
+                defs.setdefault(strip(x[2])[1], []).append(x[3])
+        done = set()
+        for _b, _i, s, x in f.nodes(True):
+            if not (x[0] == "call" and x[1] in ("Hseek", "HPseek") and len(x[3]) > 1):
+                continue
+            a = strip(x[3][1])
+            exprs = [a] + (defs.get(a[1], []) if kind(a) == "var" else [])
+            for e in exprs:
+                for y in walk(e, True):
+                    if not (y[0] == "bin" and y[1] == "*"):
+                        continue
+                    facs = [strip(y[2]), strip(y[3])]
+                    ps = [z[1] for z in facs if kind(z) == "var" and z[1] in params]
+                    floor_form = None
+                    for i_, z in enumerate(facs):
+                        if kind(z) == "bin" and z[1] == "/" and kind(strip(z[2])) == "var" and strip(z[2])[1] in params and is_int(z[3]) and is_int(facs[1 - i_]) and int_val(z[3]) == int_val(facs[1 - i_]):
+                            floor_form = strip(z[2])[1]
+                    for p in ps + ([floor_form] if floor_form else []):
+                        if (f.name, p) in done:
+                            continue
+                        done.add((f.name, p))
+                        n += 1
+                        key = "SEEKPROD:%s:%s" % (f.name, p)
+                        line = s.get("l", f.line)
+                        if floor_form == p:
+                            ctx.holds("SEEKPROD", key, f.where(line), "`%s` has the form (p / C) * C and cannot exceed `%s`" % (render(y), p), nontrivial=True)
+                            continue
+                        bounded = False
+                        for _b2, _i2, s2, c in f.nodes(True):
+                            if c[0] == "bin" and c[1] in (">", ">=", "<", "<=") and s2.get("l", 0) <= line:
+                                l_, r_ = strip(c[2]), strip(c[3])
+                                if c[1] in (">", ">=") and kind(l_) == "var" and l_[1] == p and not is_int(r_, 0):
+                                    bounded = True
+                                if c[1] in ("<", "<=") and kind(r_) == "var" and r_[1] == p and not is_int(l_, 0):
+                                    bounded = True
+                        if bounded:
+                            ctx.holds("SEEKPROD", key, f.where(line), "`%s` is compared with an upper bound before `%s` becomes the seek offset" % (p, render(y)[:60]), nontrivial=True)
+                        else:
+                            ctx.violated("SEEKPROD", key, f.where(line), "the seek offset `%s` multiplies the caller's `%s`, which is never compared with an upper bound: for a large argument the 32-bit product wraps "
+                                         "and the seek succeeds at an unrelated position" % (render(y)[:70], p))
+    ctx.floor("SEEKPROD", 2, n, "(seek offsets that multiply a caller-supplied integer)")
+    return n
